@@ -31,7 +31,7 @@ ASSUMPTIONS = ["backwards clock jumps are not injected (the property speaks of e
                "with a ticking clock the +-1us boundary classes are widened to +-16us and verdicts inside the band are withheld",
                "real-time cross-check is left to the repository's own three sleep-based tests"]
 FAULT_KINDS = ["clock_gap_at_boundary", "clock_tick_between_reads", "expiry"]
-PROBES = ["created_via_start_instances", "expired_exactly_at_boundary", "alive_one_us_before_boundary", "restored_from_adapter",
+PROBES = ["save_state_between_accesses", "created_via_start_instances", "expired_exactly_at_boundary", "alive_one_us_before_boundary", "restored_from_adapter",
           "refused_after_expiry", "self_access_after_expiry_before_sweep", "swept_by_other_access",
           "swept_by_create", "swept_by_metrics", "keepalive_restore"]
 EXHAUSTIVE = {"quick": False, "thorough": False}
@@ -105,6 +105,8 @@ def generate(spec):
                            "via": rng.choice(["single", "single", "plural"])})
         elif r < 0.30:
             events.append({"gap_us": gap, "op": rng.choice(["metrics", "full_metrics"])})
+        elif r < 0.33 and adapter:
+            events.append({"gap_us": gap, "op": "save_state"})
         elif r < 0.34:
             events.append({"gap_us": gap, "op": "stop", "inst": rng.randrange(len(insts))})
         else:
@@ -234,6 +236,16 @@ def execute(case):
                         if i.state != "gone" and not i.stopped and i.session and i.id not in listed:
                             res.violate("C17.A-alive-not-listed", {"event": n, "inst": i.id})
                 log.add("return", n, r.status, count)
+            elif op == "save_state":
+                # saving the whole server is neither an access to any instance nor a sweep trigger
+                present = [i for i in insts if i.state != "gone" and not i.stopped]
+                if adapter and present and all(i.session for i in present):
+                    r = w.get("/save-state")
+                    res.probe("save_state_between_accesses")
+                    if r.status == 200:
+                        for i in present:
+                            i.ext = True
+                    log.add("return", n, r.status)
             elif op == "stop":
                 if ev["inst"] >= len(insts):
                     continue
